@@ -535,7 +535,7 @@ def rule_attr(chk):
                 names = [F.lit(x)[1] for x in F.exprs(fl.get("name", {}), "Lit") if x.get("t") == "str"]
                 if len(names) == 1:
                     emitted[names[0]] = g
-    chk.floor("C04.floor/emitted-attributes", len(emitted), 10, "attribute names emitted on the DirectX path")
+    chk.floor("C04.floor/emitted-attributes", len(emitted), 8, "attribute names emitted on the DirectX path")
     for nm, g in sorted(emitted.items()):
         acc = accepted.get(nm) or accepted.get(nm.lower())
         ok = acc is not None and (nm in accepted or acc[1])
